@@ -440,10 +440,25 @@ Verdict run_case_forked(const PropInfo &p, const ref::Bytes &data, const ref::By
 			pos = end;
 			static const std::regex lib("#[0-9]+ (bidib_[A-Za-z0-9_]+) ");
 			static const std::regex outside("#[0-9]+ (bidib_start_[a-z]+|bidib_stop|bidib_send_sys_reset|bidib_communication_works) ");
+			// only the stacks of the two conflicting accesses count (not "Thread T3 created by ... bidib_start_pointer",
+			// mutex creation stacks, "as if synchronized via sleep" ...)
+			std::string acc;
+			{
+				std::istringstream rs(rep);
+				std::string l;
+				bool in_access = false;
+				while (std::getline(rs, l)) {
+					bool head = l.find(" of size ") != std::string::npos && (l.find("by thread") != std::string::npos || l.find("by main thread") != std::string::npos);
+					if (head) in_access = true;
+					else if (l.find_first_not_of(" \t") == std::string::npos) in_access = false;
+					if (in_access) acc += l + "\n";
+				}
+			}
 			std::smatch m;
-			if (!std::regex_search(rep, m, lib)) continue;            // harness-only report
+			if (!std::regex_search(acc, m, lib)) continue;            // harness-only report
 			std::string frame = m[1].str();
-			if (std::regex_search(rep, outside)) continue;
+			if (std::regex_search(acc, outside)) continue;
+			if (acc.find("__cyg_profile_func_enter") != std::string::npos && acc.find("contracts.cpp") != std::string::npos && frame.empty()) continue;
 			std::string kind = rep.substr(26, rep.find(' ', 26) == std::string::npos ? 10 : rep.find('(', 26) - 27);
 			v.ok = false;
 			v.signature = "ThreadSanitizer:" + std::regex_replace(kind, std::regex(" "), "-") + "@" + frame;
